@@ -13,10 +13,15 @@ def sign_of(p, atom, s):
         return (cv > 0) - (cv < 0)
     if len(p.t) == 1:
         (m, c), = p.t.items()
-        if len(m) == 1 and m[0][0] is atom:
-            e = m[0][1]
-            sg = (c > 0) - (c < 0)
-            return sg * (s if e % 2 else 1)
+        sg = (c > 0) - (c < 0)
+        for a, e in m:
+            if a is atom:
+                sg *= (s if e % 2 else 1)
+            elif a.kind in ("sqrt", "fabs"):
+                continue            # positive wherever the expression is defined
+            else:
+                return None
+        return sg
     return None
 
 
